@@ -230,10 +230,15 @@ def record(rng, lut_name, law=None, spelling=None):
                 # the documented pixelation correction: the deformation is
                 # reduced by the published delta before the look-up
                 from dclab.features.emodulus import pxcorr
+                # (pixel sizes other than the usual 0.34 um as well)
+                pxl = [0.12, 0.227, 0.5, 0.34]
+                pxs = rng.choice(pxl) if spelling is None \
+                    else pxl[spelling % 4]
+                rec["px_um"] = pxs
                 delta = pxcorr.get_pixelation_delta(
                     feat_corr="deform", feat_absc="volume" if is3d
-                    else "area_um", data_absc=x.copy(), px_um=0.34)
-                a = call(defo, x, **dict(num, px_um=0.34))
+                    else "area_um", data_absc=x.copy(), px_um=pxs)
+                a = call(defo, x, **dict(num, px_um=pxs))
                 b = call(defo - delta, x, **num)
             elif law == "pixelation-split":
                 a = call(defo, x, **dict(num, px_um=0.34))
@@ -300,6 +305,10 @@ def main(tier, seed, replay=None):
         jobs = [(random.Random(rng.randrange(2**31)), lut, law, None)
                 for _ in range(1 if q else 9) for lut in luts
                 for law in LAWS]
+        for lut in luts:
+            for k in range(4 if q else 20):
+                jobs.append((random.Random(rng.randrange(2**31)), lut,
+                             "pixelation", k))
         # every documented spelling of every medium (tables in turn)
         for k in range(40 if q else 120):
             jobs.append((random.Random(rng.randrange(2**31)), luts[k % 3],
